@@ -1408,11 +1408,11 @@ func (w *c12worker) corrBatch(or *Oracle, texts [][]byte, g *c12gen) {
 	}
 	var reqs []corrReq
 	for _, t := range texts {
-		if len(t) > 5000 {
-			continue // the depth limit is exercised by the Go-side predicates; very deep texts are slow through the pipe
-		}
 		// plain Compact
 		reqs = append(reqs, corrReq{line: "fmt compact " + hx(t), text: t, op: "compact", entry: entCompact})
+		if len(t) > 5000 {
+			continue // depth-boundary family: Compact only (any Multiline layout costs depth^2 in the real code)
+		}
 		// Indent / Compact with whitespace options only
 		var items []optItem
 		for _, k := range []int{oMultiline, oSpColon, oSpComma} {
@@ -1514,24 +1514,98 @@ func flatTokens(sb *strings.Builder, n *node) {
 // ---------------------------------------------------------------------------------------------
 // driver
 
-func deepText(depth int, obj bool, leaf string) []byte {
+// depth-boundary family: wrappers x nesting pattern x innermost leaf.
+// `wrap` containers are opened around the leaf; a container leaf adds one more level, so the product
+// straddles the nesting limit from both sides for every kind of innermost value.
+var (
+	c12DeepWraps    = []int{c12MaxDepth - 1, c12MaxDepth, c12MaxDepth + 1, c12MaxDepth + 2}
+	c12DeepPatterns = []string{"arrays", "objects", "alternating", "mixed"}
+	c12DeepLeaves   = []string{"1", `"s"`, "[]", "[ ]", "{}", "{ }", "[1]", `{"a":1}`}
+)
+
+type deepCase struct {
+	text                []byte
+	wrap                int
+	pattern, leaf, name string
+}
+
+func deepText(wrap int, pattern string, leaf string, rng *rand.Rand) []byte {
+	kinds := make([]bool, wrap) // true: object level
+	for i := range kinds {
+		switch pattern {
+		case "objects":
+			kinds[i] = true
+		case "alternating":
+			kinds[i] = i%2 == 1
+		case "mixed":
+			kinds[i] = rng.IntN(2) == 0
+		}
+	}
 	var sb bytes.Buffer
-	for i := 0; i < depth; i++ {
-		if obj && i%2 == 1 {
+	for _, obj := range kinds {
+		if obj {
 			sb.WriteString(`{"a":`)
 		} else {
 			sb.WriteByte('[')
 		}
 	}
 	sb.WriteString(leaf)
-	for i := depth - 1; i >= 0; i-- {
-		if obj && i%2 == 1 {
+	for i := wrap - 1; i >= 0; i-- {
+		if kinds[i] {
 			sb.WriteByte('}')
 		} else {
 			sb.WriteByte(']')
 		}
 	}
 	return sb.Bytes()
+}
+
+func deepFamily(rng *rand.Rand) []deepCase {
+	var out []deepCase
+	for _, w := range c12DeepWraps {
+		for _, p := range c12DeepPatterns {
+			for _, l := range c12DeepLeaves {
+				out = append(out, deepCase{deepText(w, p, l, rng), w, p, l, fmt.Sprintf("wrap=%d/%s/leaf=%s", w, p, l)})
+			}
+		}
+	}
+	return out
+}
+
+// option lists for the depth-boundary family.  Multiline is excluded here (AppendIndent loops depth times per
+// token even for an empty indent: depth^2) and exercised by exactly one case, see runDeep.
+var c12DeepOptionLists = [][]optItem{
+	nil,
+	{{k: oDup, b: true}, {k: oUTF8, b: true}, {k: oPreserve, b: true}},
+	{{k: oReorder, b: true}},
+	{{k: oInts, b: true}, {k: oFloats, b: true}},
+	{{k: oSpColon, b: true}, {k: oSpComma, b: true}, {k: oHTML, b: true}},
+	{{k: oDup, b: true}, {k: oReorder, b: true}, {k: oInts, b: true}},
+}
+
+// runDeep evaluates every predicate on one text of the depth-boundary family, through all entry points.
+func (w *c12worker) runDeep(dc deepCase, multilineCase bool) {
+	w.c.Hit("gen:depth-boundary")
+	w.c.Hit(fmt.Sprintf("deep:wrap=%d", dc.wrap))
+	w.c.Hit("deep:pattern=" + dc.pattern)
+	w.c.Hit("deep:leaf=" + dc.leaf)
+	if parseText(dc.text, true, true).root != nil {
+		w.c.Hit("deep:valid")
+	} else {
+		w.c.Hit("deep:invalid")
+	}
+	for _, items := range c12DeepOptionLists {
+		for entry := 0; entry < nEntries; entry++ {
+			if e := effActual(entry, items); e.val[oMultiline] {
+				continue // Value.Indent: see multilineCase
+			}
+			w.checkOne(entry, items, dc.text)
+		}
+	}
+	if multilineCase {
+		w.c.Hit("deep:multiline-case")
+		w.checkOne(entIndent, []optItem{{k: oIndent, s: ""}}, dc.text)
+	}
 }
 
 func runC12(c *Ctx) {
@@ -1560,9 +1634,9 @@ func runC12(c *Ctx) {
 		"[\n\t1,\n\t2\n]", "{\n\t\"a\": 1\n}", "[1, 2]", `{"a": 1, "b": 2}`, "[\n1,\n2\n]", "{\n\"a\":1\n}"} {
 		fixed = append(fixed, []byte(s))
 	}
-	for _, d := range []int{9999, 10000, 10001, 10002} {
-		fixed = append(fixed, deepText(d, false, ""), deepText(d, true, "1"), deepText(d, false, "0"))
-	}
+	deep := deepFamily(c.SubRng(1 << 20))
+	c.Note("depth-boundary family: %d texts = wraps %v x patterns %v x leaves %q, %d option lists x %d entry points each (+1 Multiline case)",
+		len(deep), c12DeepWraps, c12DeepPatterns, c12DeepLeaves, len(c12DeepOptionLists), nEntries)
 
 	// bounded-exhaustive byte strings over a JSON-critical alphabet
 	enumAlpha := []byte("{}[],:\"\\u0 1-.en\x80a")
@@ -1609,15 +1683,8 @@ func runC12(c *Ctx) {
 						items = nil
 					}
 					for entry := 0; entry < nEntries; entry++ {
-						if len(t) > 5000 {
-							// very deep texts: AppendIndent loops depth times per token even for an empty indent, so any
-							// Multiline layout costs depth^2; keep one such case (Indent on the deepest valid array)
-							if e := effActual(entry, items); e.val[oMultiline] {
-								if !(entry == entIndent && j == 1 && len(t) == 2*c12MaxDepth) {
-									continue
-								}
-								items = []optItem{{k: oIndent, s: ""}}
-							}
+						if len(t) > 5000 && effActual(entry, items).val[oMultiline] {
+							continue // quadratic indentation cost; long texts belong to the depth-boundary family
 						}
 						w.checkOne(entry, items, t)
 					}
@@ -1634,12 +1701,25 @@ func runC12(c *Ctx) {
 					continue
 				}
 				classifyText(c, t, "fixed")
-				n := 64
-				if len(t) > 5000 {
-					n = 6
-				}
-				runText(t, n)
+				runText(t, 64)
 				batch = append(batch, t)
+			}
+			flush()
+			// depth-boundary family, striped over the workers; the single Multiline case is the deepest valid
+			// all-arrays text whose innermost value is an empty object
+			for i, dc := range deep {
+				if i%nWorkers != wi {
+					continue
+				}
+				w.runDeep(dc, dc.wrap == c12MaxDepth-1 && dc.pattern == "arrays" && dc.leaf == "{}")
+				// correspondence (`fmt compact`): the model's depth check walks the stack, ~1 s per text, so the
+				// quick tier sends the "mixed" pattern (all wraps x all leaves) and the thorough tier everything
+				if c.Thorough() || dc.pattern == "mixed" {
+					batch = append(batch, dc.text)
+				}
+				if len(batch) >= 8 {
+					flush()
+				}
 			}
 			flush()
 			for i, t := range enum {
